@@ -9,8 +9,12 @@
        a unary operator a unary operand (14), a call a leaf callee (16);
      - an else-less `c ? t` directly in front of a `:` would capture it (dangling else): such an operand is wrapped.
    Spacing: a single blank on both sides of every binary operator, `?`, `:` of a ternary and `=`; `, ` between
-   list elements; nothing else.  The round trip through the parser model is proved in Proofs/RoundTripP.v.
-   Executable definitions only. *)
+   list elements; nothing else.  Leaves: numbers (decimal when unsized, `0x` digits when the size is a multiple of 4,
+   `0b` digits otherwise), `true`/`false`, string tokens as written, variables (leading dots, names joined by dots).
+   The printer covers EVERY tree the parser can produce (`printable`, Proofs/ParsePrintableP.v); the syntax tree keeps
+   no separators, literal spellings, blanks or comments, so blocks are always printed with `, ` (a line break is the
+   other separator the parser accepts) and `asm { }` has no tree at all (the expression parser rejects the keyword).
+   The round trip through the parser model is proved in Proofs/RoundTrip*.v.  Executable definitions only. *)
 From Coq Require Import NArith List Bool Arith.
 From CA Require Import Model.Lexer Model.Parser.
 Import ListNotations.
@@ -59,18 +63,25 @@ Fixpoint dec_digits (fuel : nat) (v : N) : text :=
   | O => [48 + v]
   | S f => if v <? 10 then [48 + v] else dec_digits f (v / 10) ++ [48 + v mod 10]
   end.
-(* unsized: decimal; sized s = 4k: `0x` and k hexadecimal digits *)
+Fixpoint bin_digits (k : nat) (v : N) : text :=
+  match k with O => [] | S k' => bin_digits k' (v / 2) ++ [48 + v mod 2] end.
+(* unsized: decimal; sized s = 4k: `0x` and k hexadecimal digits; any other size s: `0b` and s binary digits *)
 Definition print_num (v : N) (sz : option N) : text :=
   match sz with
   | None => dec_digits (N.to_nat (N.size v)) v
-  | Some s => [48; 120] ++ hex_digits (N.to_nat (s / 4)) v
+  | Some s => if s mod 4 =? 0 then [48; 120] ++ hex_digits (N.to_nat (s / 4)) v
+              else [48; 98] ++ bin_digits (N.to_nat s) v
   end.
+
 
 Fixpoint sepby (sep : text) (l : list text) : text :=
   match l with
   | [] => []
   | x :: r => match r with [] => x | _ :: _ => x ++ sep ++ sepby sep r end
   end.
+
+(* a variable: `level` leading dots, then the names joined by dots *)
+Definition print_var (level : N) (path : list text) : text := repeat 46 (N.to_nat level) ++ sepby [46] path.
 
 Definition paren (s : text) : text := [40] ++ s ++ [41].
 Definition unop_text (o : unop) : text := match o with Neg => [45] | Not => [33] end.
@@ -89,7 +100,7 @@ Fixpoint pr (p : nat) (e : expr) {struct e} : text :=
     | ENum v sz => print_num v sz
     | EBool b => if b then kw_true else kw_false
     | EStr raw => raw
-    | EVar _ path => sepby [46] path
+    | EVar level path => print_var level path
     | EUn o a => unop_text o ++ pr 14 a
     | EBin o a b =>
       match o with
@@ -154,25 +165,34 @@ Fixpoint height (e : expr) : nat :=
   | ECall f args => S (Nat.max (height f) (list_max (map height args)))
   end.
 
-(* ---------- the printable sub-language ---------- *)
+(* ---------- the printable trees: an executable predicate that every tree the parser produces satisfies
+   (Proofs/ParsePrintableP.v) ---------- *)
+(* an identifier token: `$`, or letters/digits/underscore not starting with a digit and not a keyword *)
 Definition wf_name (n : text) : bool :=
   match n with [] => false | c :: _ => is_ident_start c end
   && forallb is_ident_mid n
   && negb (text_eqb n kw_asm) && negb (text_eqb n kw_true) && negb (text_eqb n kw_false).
+Definition name_ok (n : text) : bool := text_eqb n [36] || wf_name n.
+(* a string token as the lexer cuts it: a quote, characters other than a quote, a quote (escapes stay raw) *)
+Definition str_ok (raw : text) : bool :=
+  match raw with
+  | 34 :: r => let '(_, rest) := span_while (fun c => negb (c =? 34)) r in text_eqb rest [34]
+  | _ => false
+  end.
 
-Fixpoint wfp (e : expr) : bool :=
+Fixpoint printable (e : expr) : bool :=
   match e with
   | ENum v None => true
-  | ENum v (Some s) => (0 <? s) && (s mod 4 =? 0) && (v <? 2 ^ s)
+  | ENum v (Some s) => (0 <? s) && (v <? 2 ^ s)
   | EBool _ => true
-  | EStr _ => false
-  | EVar l path => (l =? 0) && match path with [n] => wf_name n | _ => false end
-  | EUn _ a => wfp a
-  | EBin _ a b => wfp a && wfp b
-  | ETern c t f => wfp c && wfp t && wfp f
-  | ESlice l r a => wfp l && wfp r && wfp a
-  | EShort s a => wfp s && wfp a
-  | EBlock es => forallb wfp es
-  | ECall f args => wfp f && forallb wfp args
+  | EStr raw => str_ok raw
+  | EVar l path => match path with [] => false | _ :: _ => forallb name_ok path end
+  | EUn _ a => printable a
+  | EBin _ a b => printable a && printable b
+  | ETern c t f => printable c && printable t && printable f
+  | ESlice l r a => printable l && printable r && printable a
+  | EShort s a => printable s && printable a
+  | EBlock es => forallb printable es
+  | ECall f args => printable f && forallb printable args
   end.
-Definition wf_print (e : expr) : Prop := wfp e = true.
+Definition wf_print (e : expr) : Prop := printable e = true.
